@@ -53,7 +53,9 @@ def _sim_states(c):
             if i < len(st) and st[i] == 'R':
                 st[i] = 'D'
                 free += 1
-                if outs[i][0] == 'e':
+                kind = outs[i][0]
+                failed = kind == 'e' or (kind == 'c' and fl in ('rf', 'rc'))
+                if failed:
                     if fl == 'rc' and helper == 'active':
                         cancel(range(len(st)))
                     if fl == 'on':
@@ -62,6 +64,14 @@ def _sim_states(c):
                     if fl in ('rf', 'rc'):
                         helper = 'raised'
                 admit()
+        elif op[0] == 'x':
+            if fl == 'on' and helper == 'exit':
+                helper = 'left'
+                free += 1
+                admit()
+            elif helper == 'active':
+                cancel(range(len(st)))
+                helper = 'left'
         elif fl == 'on' and helper == 'active':
             helper = 'exit'
             if op[1] == 'e' and not shut:
@@ -120,12 +130,19 @@ class C20(Prop):
 
     # ---- generation ----------------------------------------------------------------------------
     @staticmethod
-    def _expand(base, prio, body=None):
+    def _expand(base, prio, body=None, cancel=None):
         """schedule from a priority order: repeatedly finish the running task that comes first in `prio`; `body` = (position, kind, code)
-        inserts the end of the online body before that many finishes"""
+        inserts the end of the online body before that many finishes; `cancel` = position: the caller of the helper is cancelled
+        before that many finishes"""
         c = dict(base, ops=[])
         while True:
-            if body is not None and len([o for o in c['ops'] if o[0] == 'f']) == body[0] and not any(o[0] == 'b' for o in c['ops']):
+            nf = len([o for o in c['ops'] if o[0] == 'f'])
+            if cancel is not None and nf == cancel and not any(o[0] == 'x' for o in c['ops']):
+                if body is not None and body[0] == nf and not any(o[0] == 'b' for o in c['ops']) and body[3]:
+                    c['ops'].append(['b', body[1], body[2]])      # body ends first, then the caller is cancelled inside __aexit__
+                c['ops'].append(['x'])
+                continue
+            if body is not None and nf == body[0] and not any(o[0] == 'b' for o in c['ops']):
                 c['ops'].append(['b', body[1], body[2]])
                 continue
             st = list(_sim_states(c))[-1]
@@ -137,25 +154,29 @@ class C20(Prop):
                 return c
             c['ops'].append(['f', run[0]])
 
-    def _exhaustive(self, max_tasks, sizes, max_fail=5, flavours=FLAVOURS):
+    def _exhaustive(self, max_tasks, sizes, max_fail=5, flavours=FLAVOURS, cancels=True):
         seen = set()
         for fl in flavours:
             for entry in (('hold',) if fl == 'on' else ('hold', 'bg')):
                 for n in sizes:
                     for k in range(max_tasks + 1):
-                        for pat in itertools.product('re', repeat=k):
-                            if pat.count('e') > max_fail:
+                        for pat in itertools.product('rec', repeat=k):
+                            if pat.count('e') + pat.count('c') > max_fail:
                                 continue
-                            outs = [[p, 10 * (i + 1) + (1 if p == 'e' else 0)] for i, p in enumerate(pat)]
+                            outs = [[p, 0 if p == 'c' else 10 * (i + 1) + (1 if p == 'e' else 0)] for i, p in enumerate(pat)]
                             base = {'fl': fl, 'entry': entry, 'n': n, 'outs': outs}
-                            bodies = [None] if fl != 'on' else [(pos, kind, 99) for pos in range(k + 1) for kind in 're']
+                            bodies = [None] if fl != 'on' else [(pos, kind, 99, first) for pos in range(k + 1) for kind in 're'
+                                                                for first in (False, True)]
                             for prio in itertools.permutations(range(k)):
                                 for body in bodies:
-                                    c = self._expand(base, prio, body)
-                                    key = json.dumps(c, sort_keys=True)
-                                    if key not in seen:
-                                        seen.add(key)
-                                        yield c
+                                    for cancel in ([None] + list(range(k + 1)) if cancels else [None]):
+                                        if body is not None and body[3] and cancel != body[0]:
+                                            continue
+                                        c = self._expand(base, prio, body, cancel)
+                                        key = json.dumps(c, sort_keys=True)
+                                        if key not in seen:
+                                            seen.add(key)
+                                            yield c
 
     def _random_case(self, rng):
         fl = rng.choice(FLAVOURS)
@@ -163,18 +184,26 @@ class C20(Prop):
         n = rng.choice([1, 1, 2, 2, 3])
         k = rng.choice([1, 2, 3, 4, 5, 5, 6])
         pfail = rng.choice([0.0, 0.2, 0.5])
-        outs = [['e', 10 * (i + 1) + 1] if rng.random() < pfail else ['r', 10 * (i + 1)] for i in range(k)]
+        pcanc = rng.choice([0.0, 0.0, 0.15, 0.3])
+        outs = []
+        for i in range(k):
+            r = rng.random()
+            outs.append(['e', 10 * (i + 1) + 1] if r < pfail else ['c', 0] if r < pfail + pcanc else ['r', 10 * (i + 1)])
         prio = list(range(k))
         rng.shuffle(prio)
         body = None
+        cancel = rng.randint(0, k) if rng.random() < 0.3 else None
         if fl == 'on':
-            body = (rng.randint(0, k), 'e' if rng.random() < 0.3 else 'r', 99)
-        c = self._expand({'fl': fl, 'entry': entry, 'n': n, 'outs': outs}, prio, body)
+            pos = cancel if (cancel is not None and rng.random() < 0.5) else rng.randint(0, k)
+            body = (pos, 'e' if rng.random() < 0.3 else 'r', 99, rng.random() < 0.7)
+        c = self._expand({'fl': fl, 'entry': entry, 'n': n, 'outs': outs}, prio, body, cancel)
         r = rng.random()
         if r < 0.25 and c['ops']:
             c['ops'] = c['ops'][:rng.randint(0, len(c['ops']))]             # unfinished schedule
         elif r < 0.3:
             c['ops'].insert(rng.randint(0, len(c['ops'])), ['f', rng.randrange(k)])   # possibly not a behaviour (err on both sides)
+        elif r < 0.33:
+            c['ops'].insert(rng.randint(0, len(c['ops'])), ['x'])
         return c
 
     def cases(self, rng, n, tier):
@@ -196,7 +225,7 @@ class C20(Prop):
         outs = ' '.join(f'{k}{v}' for k, v in c['outs'])
         out = ['reset', f"start {c['fl']} {c['entry']} {c['n']} {outs}".rstrip()]
         for o in c['ops']:
-            out.append(f'finish {o[1]}' if o[0] == 'f' else f'body {o[1]}{o[2]}')
+            out.append(f'finish {o[1]}' if o[0] == 'f' else 'cancel' if o[0] == 'x' else f'body {o[1]}{o[2]}')
         return out
 
     # ---- real code -----------------------------------------------------------------------------
@@ -224,6 +253,8 @@ class C20(Prop):
             state = ['Q'] * k
             running = [0, 0]      # current, peak during this step
 
+            slow = set(c.get('slow', ()))
+
             def mk(i):
                 async def pf():
                     state[i] = 'R'
@@ -231,9 +262,15 @@ class C20(Prop):
                     running[1] = max(running[1], running[0])
                     try:
                         v = await s.gate(('t', i))
+                        if isinstance(v, type) and issubclass(v, asyncio.CancelledError):
+                            raise asyncio.CancelledError()     # scripted outcome `c`: the body itself ends in CancelledError
                         state[i] = f'ok:{v}'
                         return v
                     except asyncio.CancelledError:
+                        if i in slow:                           # clean-up that needs a few more loop iterations
+                            state[i] = 'C'
+                            for _ in range(4):
+                                await asyncio.sleep(0)
                         state[i] = 'X'
                         raise
                     except TaskError as e:
@@ -247,6 +284,8 @@ class C20(Prop):
             pool_tasks = []
 
             def canon_exc(e):
+                if isinstance(e, asyncio.CancelledError):
+                    return 'exc:X'
                 return f'exc:{e.code}' if isinstance(e, TaskError) else f'exc:{type(e).__name__}'
 
             def canon_slot(x):
@@ -254,6 +293,8 @@ class C20(Prop):
                     v, e = x
                     if e is None:
                         return f'ok:{v}'
+                    if isinstance(e, asyncio.CancelledError):
+                        return 'X'
                     return f'err:{e.code}' if isinstance(e, TaskError) else f'err:{type(e).__name__}'
                 return f'ok:{x}'
 
@@ -264,7 +305,7 @@ class C20(Prop):
                         await s.gate('body')
                     res = []
                     for t in pool_tasks:
-                        res.append('X' if t.cancelled() else canon_slot(t.result()))
+                        res.append('X' if (t.cancelled() or t.result() is None) else canon_slot(t.result()))
                     return res
                 if entry == 'bg':
                     r = await U.bounded_gather(*pfs, parallelism=n, return_exceptions=(fl == 'rx'), cancel_on_error=(fl == 'rc'))
@@ -316,11 +357,18 @@ class C20(Prop):
                     if not (0 <= i < k) or state[i] != 'R':
                         out.append('err')
                         continue
-                    kind, v = outs[i]
+                    kind, v = outs[i][0], outs[i][1]
                     if kind == 'r':
                         s.open(('t', i), value=v)
+                    elif kind == 'c':
+                        s.open(('t', i), value=asyncio.CancelledError)
                     else:
                         s.open(('t', i), exc=TaskError(v))
+                elif op[0] == 'x':
+                    if helper['state'] != 'active':
+                        out.append('err')      # the caller is no longer inside the helper
+                        continue
+                    s.cancel('caller')
                 else:
                     if fl != 'on' or body_open[0] or helper['state'] != 'active':
                         out.append('err')
